@@ -909,11 +909,8 @@ impl<'a> Pr<'a> {
             let r = self.ident(&range);
             self.plain(format!("{}{}{}", kw, s, r));
         }
-        if prog.declare {
-            for p in &prog.procs {
-                let h = self.proc_header(p, true);
-                self.plain(h);
-            }
+        if prog.declare && prog.declare_where == 0 {
+            self.declares();
         }
         for t in &prog.types {
             let a = self.kw("TYPE");
@@ -939,6 +936,10 @@ impl<'a> Pr<'a> {
             let p = path_main(i);
             self.stmt(&p, s);
         }
+        if prog.declare && prog.declare_where == 1 {
+            self.joinable = false;
+            self.declares();
+        }
         for (pi, p) in prog.procs.iter().enumerate() {
             self.joinable = false;
             self.cur_proc = Some(pi);
@@ -955,6 +956,19 @@ impl<'a> Pr<'a> {
             let b = self.kw(if p.ret.is_some() { "FUNCTION" } else { "SUB" });
             self.line_inner(Some(&format!("p{}/end", pi)), format!("{}{}{}", a, s, b), false, false, false);
             self.cur_proc = None;
+        }
+        if prog.declare && prog.declare_where == 2 {
+            self.joinable = false;
+            self.declares();
+        }
+    }
+
+    fn declares(&mut self) {
+        let prog = self.prog;
+        for (pi, p) in prog.procs.iter().enumerate() {
+            let as_ = prog.declare_as.iter().find(|(k, _)| *k == pi).map(|(_, q)| q).unwrap_or(p);
+            let h = self.proc_header(as_, true);
+            self.line_inner(Some(&format!("declare{}", pi)), h, false, false, false);
         }
     }
 }
